@@ -6,6 +6,8 @@
     full product (fewer, equal, more new pages) x (smaller, equal, larger rendered size) with pages of the stream after the run.
 (D) direct oracle: only the public OggPage API, judged by an independent pure-Python Ogg page reader with its own
     bit-serial CRC (never mutagen's parser).
+(T) direct oracle for the tool mutagen/_tools/moggsplit.py: multiplexed inputs rendered by the check's own page writer + CRC, the
+    real tool run in-process in a scratch directory, every file it leaves judged by the check's own page reader.
 (V) vm_compute shard: the extracted binary must agree with the kernel's evaluator.
 """
 import io, os, sys, glob, signal, re
@@ -20,6 +22,9 @@ TRUSTED = [
     "implementation on BytesIO by the replace/renumber correspondence",
     "Model.Ogg / Model.Crc are hand-written models of mutagen/ogg.py OggPage, tied to /repo only by the correspondence run "
     "(no regeneration); struct.pack/unpack and bytes slicing semantics are part of the model",
+    "mutagen/_tools/moggsplit.py is not modelled in Coq: direct oracle only (own page writer/reader, the real main() run in-process in "
+    "/verif/.run, option parsing through the tool's own OptionParser); one output file per (input, serial), byte-identical to the "
+    "concatenation of that input's pages of the serial, nothing else written but the playlist, playlist = exactly those files",
     "independent reference reader + bit-serial CRC-32 (poly 0x04C11DB7, MSB first, init 0) in harness/props/c15.py, "
     "validated on every run against pages written by libogg in tests/data/*.ogg|*.spx|*.opus|*.oga",
 ]
@@ -40,7 +45,9 @@ MANIFEST = {
             "_from_packets_try_preserve, for every old page run that to_packets accepts: with the old packets' lengths the pages returned "
             "have the old layout page by page and reassemble to exactly the packets given (C15_try_preserve_same), otherwise the call is "
             "from_packets(packets, old_pages[0].sequence) (C15_try_preserve_fallback); in every case the packets come back "
-            "(C15_try_preserve_roundtrip)",
+            "(C15_try_preserve_roundtrip). moggsplit (tool, anchor file): no theorem; direct oracle on the real tool -- for every input file "
+            "and every serial in it exactly one output file, byte-identical to that input's pages of the serial in order (packets, CRCs, "
+            "sequence numbers, first/last flags are the stream's), no other file but the playlist, the playlist lists exactly those files",
     "note": "Model tied by correspondence (not regenerated). The model cannot exhibit: UnboundLocalError of `size` on an incomplete page "
             "without packets (returns 27); negative default_size (Python slices from the end); file-object faults during replace (C06/C19); "
             "find_last is modelled and corresponded but has no theorem. The replace theorems assume the pages between/after the old pages "
@@ -57,7 +64,11 @@ RULE = ("packet lists: counts 0..300 x sizes on the lattice {0,1,254,255,256,509
         "incomplete/continued combinations, malformed byte streams (truncation, bad magic/version, random lacing); "
         "_from_packets_try_preserve: old runs = from_packets over the size lattice x page parameters x start sequence, new packet lists in "
         "every relation to the old ones (identical lengths; same count and total, bytes redistributed by 1/2/50/254/255/256/all; same count "
-        "other total; more / fewer packets; split or merged with the same total; empty), every relation reached on every run; files: 2-3 serials "
+        "other total; more / fewer packets; split or merged with the same total; empty), every relation reached on every run; moggsplit: inputs of 2-3 logical streams (grouped or scattered BOS pages, random "
+        "interleaving, 3-6 packets each incl. empty / 255 / 256-byte packets and one continued over several pages, 1-5 segments per page) x "
+        "{one input, two inputs with distinct serials, a byte-identical copy, an edited copy sharing all or some serials, three inputs sharing "
+        "serials pairwise} x {--m3u or not} x {default, custom --pattern incl. a subdirectory} x --extension x stale outputs of an earlier "
+        "run present or not; files: 2-3 serials "
         "interleaved, a run of one serial's pages replaced by fewer/equal/more pages; plus the full product (fewer, equal, more pages) x "
         "(smaller, EQUAL, larger rendered byte size, incl. +-1, +-255/256) on packet-aligned runs that are followed by more pages of the "
         "same serial with other serials' pages interleaved, every cell reached on every run. non-trivial = at least one page produced / "
@@ -1229,6 +1240,230 @@ def corr_replace(ctx, O, data, spec, pages, rel, fixed=None):
 
 
 # ---------------------------------------------------------------------------------------------------------
+# (D) the moggsplit tool (mutagen/_tools/moggsplit.py): inputs rendered by the check's own page writer, outputs judged by its
+#     own page reader
+
+def ref_write_page(flags, position, serial, sequence, lacing, body):
+    """an Ogg page per RFC 3533 from its header fields, lacing values and body (own CRC; no mutagen code)"""
+    assert len(lacing) <= 255 and sum(lacing) == len(body)
+    head = b"OggS\0" + bytes([flags]) + position.to_bytes(8, "little", signed=True) + serial.to_bytes(4, "little") + \
+        sequence.to_bytes(4, "little")
+    tail = bytes([len(lacing)]) + bytes(lacing) + body
+    return head + ref_crc(head + b"\0\0\0\0" + tail).to_bytes(4, "little") + tail
+
+
+def ref_stream_pages(serial, packets, nseg_max, eos=True):
+    """pages of one logical stream: the lacing values of all packets cut into pages of at most nseg_max segments (a cut after a
+    255 segment continues the packet on the next page); numbered 0,1,2,..., first flag on the first, last flag on the last"""
+    segs = []
+    for pk in packets:
+        q, r = divmod(len(pk), 255)
+        chunks = [pk[i * 255:(i + 1) * 255] for i in range(q)] + [pk[q * 255:]]
+        segs += [(len(c), c) for c in chunks]
+    pages, prev255, done = [], False, 0
+    groups = [segs[i:i + nseg_max] for i in range(0, len(segs), nseg_max)] or [[]]
+    for i, g in enumerate(groups):
+        flags = (1 if prev255 else 0) | (2 if i == 0 else 0) | (4 if (eos and i == len(groups) - 1) else 0)
+        finished = sum(1 for n, _ in g if n < 255)
+        done += finished
+        pages.append(ref_write_page(flags, (done * 1000 + serial % 7) if finished else -1, serial, i, [n for n, _ in g], b"".join(c for _, c in g)))
+        prev255 = bool(g) and g[-1][0] == 255
+    return pages
+
+
+def moggsplit_input(inp):
+    """bytes of one multiplexed input from its spec: {'name', 'salt', 'grouped', 'order_seed', 'streams': [{'serial', 'sizes', 'nseg'}]}"""
+    import random
+    streams = []
+    for st in inp["streams"]:
+        prng = random.Random(st["serial"] * 13 + inp["salt"])
+        pk = [bytes([(st["serial"] + 31 * i + inp["salt"]) & 255]) + bytes(prng.randrange(256) for _ in range(min(n, 24) - 1)) +
+              bytes([(i * 7 + j) & 255 for j in range(max(0, n - 24))]) if n else b"" for i, n in enumerate(st["sizes"])]
+        streams.append(ref_stream_pages(st["serial"], pk, st["nseg"], st.get("eos", True)))
+    orng = random.Random(inp["order_seed"])
+    idx = [0] * len(streams)
+    order = []
+    if inp["grouped"]:
+        # as in a real multiplexed link: all beginning-of-stream pages first
+        for i in range(len(streams)):
+            order.append(streams[i][0]); idx[i] = 1
+    while any(idx[i] < len(streams[i]) for i in range(len(streams))):
+        i = orng.choice([i for i in range(len(streams)) if idx[i] < len(streams[i])])
+        order.append(streams[i][idx[i]]); idx[i] += 1
+    return b"".join(order)
+
+
+MOGG_PATTERNS = [None, "out_%(base)s_%(stream)d.%(ext)s", "sub/%(stream)d-%(base)s.%(ext)s", "%(base)s.%(stream)d"]
+MOGG_SCENARIOS = ("one-input", "two-inputs-distinct-serials", "two-inputs-shared-serial-copy", "two-inputs-shared-serial-edited",
+                  "three-inputs-mixed")
+
+
+def moggsplit_spec(rng, scenario, m3u, pattern, ext):
+    def stream(serial, big):
+        sizes = [rng.choice([0, 1, 30, 254, 255, 256, 510, 700]) for _ in range(rng.choice([3, 4, 6]))]
+        if big:
+            sizes[rng.randrange(len(sizes))] = rng.choice([600, 1020, 1500])       # a packet continued over several pages
+        return {"serial": serial, "sizes": sizes, "nseg": rng.choice([1, 2, 2, 3, 5]), "eos": rng.random() < 0.8}
+
+    def inp(name, serials, salt):
+        sts = [stream(ser, i == 0 or rng.random() < 0.5) for i, ser in enumerate(serials)]
+        return {"name": name, "salt": salt, "grouped": rng.random() < 0.75, "order_seed": rng.randrange(1 << 30), "streams": sts}
+
+    pool = rng.sample([0, 1, 2, 7, 0x1111, 0x7FFFFFFF, 0x80000000, 0xFFFFFFFF, 1002429366, 77], 7)
+    n1 = rng.choice([2, 2, 3])
+    a = inp("alpha.ogg", pool[:n1], 1)
+    if scenario == "one-input":
+        inputs = [a]
+    elif scenario == "two-inputs-distinct-serials":
+        inputs = [a, inp("beta.oga", pool[3:3 + rng.choice([1, 2, 3])], 2)]
+    elif scenario == "two-inputs-shared-serial-copy":
+        b = dict(a); b["name"] = "copy of alpha.ogg"
+        inputs = [a, b]
+    elif scenario == "two-inputs-shared-serial-edited":
+        # same serials (all or some of them), other packets, other interleaving
+        inputs = [a, inp("beta.ogg", pool[:rng.choice([1, n1])] + ([pool[5]] if rng.random() < 0.5 else []), 2)]
+    else:
+        inputs = [a, inp("beta.ogg", [pool[0], pool[4]], 2), inp("gamma.ogg", [pool[4], pool[1], pool[6]], 3)]
+    return {"scenario": scenario, "m3u": m3u, "pattern": pattern, "ext": ext, "stale": rng.random() < 0.4, "inputs": inputs}
+
+
+def moggsplit_case(ctx, spec):
+    """run the real tool on the inputs of `spec` in a scratch directory and judge every file it leaves behind"""
+    import shutil, contextlib, importlib, common
+    ctx.oracle_cases += 1
+    ctx.count("moggsplit:" + spec["scenario"] + ("+m3u" if spec["m3u"] else "") + ("+pattern" if spec["pattern"] else ""))
+    ctx.case(("mogg", repr(spec)))
+    d = {"runner": "c15.moggsplit", "spec": spec}
+    root = os.path.join(common.VERIF, ".run", "c15_moggsplit_%d" % os.getpid())
+    shutil.rmtree(root, ignore_errors=True)
+    os.makedirs(os.path.join(root, "in"))
+    os.makedirs(os.path.join(root, "out", "sub"))
+    blobs = {}
+    for inp in spec["inputs"]:
+        blobs[inp["name"]] = moggsplit_input(inp)
+        with open(os.path.join(root, "in", inp["name"]), "wb") as f:
+            f.write(blobs[inp["name"]])
+    # what must be there: per input and serial one file with exactly that stream's pages, per input one playlist if asked
+    pattern = spec["pattern"] or "%(base)s-%(stream)d.%(ext)s"
+    ext = spec["ext"] or "ogg"
+    expect, playlists = {}, {}
+    for inp in spec["inputs"]:
+        base = os.path.splitext(inp["name"])[0]
+        names = []
+        for pg in ref_read_all(blobs[inp["name"]]):
+            name = pattern % {"base": base, "stream": pg["serial"], "ext": ext}
+            if name not in names:
+                names.append(name)
+                assert name not in expect, "harness: pattern collision"
+                expect[name] = b""
+            expect[name] += pg["raw"]
+        if spec["m3u"]:
+            playlists[base + ".m3u"] = names
+    if spec.get("stale"):
+        # output of an earlier run lying around (longer than the new one): the tool writes its files afresh
+        for name in list(sorted(expect))[:2] + list(sorted(playlists))[:1]:
+            with open(os.path.join(root, "out", name), "wb") as f:
+                f.write(b"OggS stale output of an earlier run\r\n" * 400)
+    argv = ["moggsplit"]
+    if spec["m3u"]:
+        argv.append("--m3u")
+    if spec["pattern"]:
+        argv += ["--pattern", spec["pattern"]]
+    if spec["ext"]:
+        argv += ["--extension", spec["ext"]]
+    argv += [os.path.join("..", "in", inp["name"]) for inp in spec["inputs"]]
+    tool = importlib.import_module("mutagen._tools.moggsplit")
+    cwd = os.getcwd()
+    status = "ok"
+    try:
+        os.chdir(os.path.join(root, "out"))
+        sink = io.StringIO()
+        with contextlib.redirect_stdout(sink), contextlib.redirect_stderr(sink):
+            try:
+                rc = tool.main(list(argv))
+                if rc:
+                    status = "exit %r" % (rc,)
+            except SystemExit as e:
+                if e.code:
+                    status = "exit %r" % (e.code,)
+            except Exception as e:
+                status = "raise " + exc_name(e)
+    finally:
+        os.chdir(cwd)
+    ok = True
+
+    def bad(what, **extra):
+        nonlocal ok
+        if ok:
+            dd = dict(d); dd.update(extra)
+            ctx.violation("oracle", "moggsplit: " + what, dd)
+        ok = False
+
+    try:
+        if status != "ok":
+            bad("the tool failed on well-formed multiplexed input (%s)" % status)
+            return False
+        found = {}
+        for dp, dn, fn in os.walk(os.path.join(root, "out")):
+            for n in fn:
+                full = os.path.join(dp, n)
+                with open(full, "rb") as f:
+                    found[os.path.relpath(full, os.path.join(root, "out"))] = f.read()
+        for inp in spec["inputs"]:
+            with open(os.path.join(root, "in", inp["name"]), "rb") as f:
+                if f.read() != blobs[inp["name"]]:
+                    bad("an input file was modified", file=inp["name"])
+        for name in sorted(expect):
+            if name not in found:
+                bad("no output file for a logical stream of an input", file=name)
+                continue
+            if found[name] != expect[name]:
+                try:
+                    got = ref_read_all(found[name])
+                    desc = {"pages": len(got), "serials": sorted({g["serial"] for g in got}), "sequence": [g["sequence"] for g in got][:24],
+                            "first_flags": [i for i, g in enumerate(got) if g["first"]][:8], "crc_ok": all(g["crc_ok"] for g in got)}
+                except RefError as e:
+                    desc = {"unreadable": str(e)}
+                want = ref_read_all(expect[name])
+                bad("output file is not the concatenation of that input's pages of the serial", file=name, got=desc,
+                    want={"pages": len(want), "sequence": [g["sequence"] for g in want][:24]})
+        for name in sorted(found):
+            if name not in expect and name not in playlists:
+                bad("unexpected file written", file=name)
+        for name, names in sorted(playlists.items()):
+            if name not in found:
+                bad("playlist missing", file=name)
+                continue
+            lines = found[name].decode("utf-8", "replace").splitlines()
+            if sorted(lines) != sorted(names):
+                bad("playlist does not list exactly the files written for the input", file=name, lines=lines[:12])
+        if not spec["m3u"] and any(n.endswith(".m3u") for n in found):
+            bad("playlist written without --m3u")
+        return ok
+    finally:
+        shutil.rmtree(root, ignore_errors=True)
+
+
+def oracle_moggsplit(ctx, reps):
+    """every scenario x (--m3u or not) x (default / custom --pattern), `reps` times"""
+    rng = ctx.rng
+    # the reference writer itself: its pages read back (reference reader) and are accepted by libogg-validated CRC code
+    probe = ref_stream_pages(5, [b"a" * 600, b"", b"b" * 255, b"c"], 2)
+    back = [ref_read_page(p) for p in probe]
+    if not all(r["crc_ok"] and r["total"] == len(p) for r, p in zip(back, probe)) or ref_packets(back) != [b"a" * 600, b"", b"b" * 255, b"c"] \
+            or [r["sequence"] for r in back] != list(range(len(back))) or not any(r["continued"] for r in back):
+        ctx.disagree("c15.ref_writer", "reference page writer and reference page reader disagree", {})
+        return
+    for rep in range(reps):
+        for scenario in MOGG_SCENARIOS:
+            for m3u in (False, True):
+                for custom in (False, True):
+                    pattern = rng.choice(MOGG_PATTERNS[1:]) if custom else None
+                    ext = rng.choice([None, None, "oga", "x"])
+                    moggsplit_case(ctx, moggsplit_spec(rng, scenario, m3u, pattern, ext))
+
+
+# ---------------------------------------------------------------------------------------------------------
 
 def crc_against_libogg(ctx):
     """the reference CRC/reader must accept every page of the libogg-written test files"""
@@ -1345,6 +1580,7 @@ def run(ctx):
     if not all(ctx.notes["try_preserve_relations"].values()):
         ctx.disagree("c15.try_preserve", "exploration did not reach every old/new packet-list relation: %r" % (ctx.notes["try_preserve_relations"],), {})
     corr_files(ctx, O, nfiles)
+    oracle_moggsplit(ctx, 6 if ctx.thorough else 1)
     corr_replace_product(ctx, O, nprod)
     missing = [c + "/" + b for c in COUNT_RELS for b in BYTE_RELS
                if not ctx.hist.get("file:replace-pages-%s-bytes-%s+tail+foreign" % (c, b))]
@@ -1383,6 +1619,7 @@ def search(ctx, broken):
         ctx.model.call = lambda *a: ""      # oracle only
         nd = len(ctx.disagreements)
         corr_try_preserve(ctx, O, 400)
+        oracle_moggsplit(ctx, 12)
         corr_replace_product(ctx, O, 25)
         del ctx.disagreements[nd:]
     finally:
@@ -1426,6 +1663,8 @@ def replay(ctx, payload):
             corr_parse(ctx, O, bytes.fromhex(d["data"]))
         elif d["runner"] == "c15.try_preserve":
             try_preserve_case(ctx, O, d, corr=False)
+        elif d["runner"] == "c15.moggsplit":
+            moggsplit_case(ctx, d["spec"])
         else:
             ctx.model.call = saved
             run(ctx)
